@@ -41,6 +41,7 @@ HashFn(cf) == "sha256"
 \* ------------------------------------------------------------------ the hash of the outputs
 Files(shape) == CASE shape = "two" -> <<"a", "b">> [] shape = "dir" -> <<"x", "y", "z">>
                   [] shape = "one" -> <<"o">> [] shape = "fg" -> <<"f">> [] shape = "txt" -> <<"t">>
+                  [] shape = "od" -> <<"o">>      \* one file discovered in an output directory (output_dirs): a single output
 Leaf(n, c) == [file |-> n, c |-> c]
 H(a, items) == [h |-> a, of |-> items]
 OutHash(shape, a, c) ==
